@@ -73,23 +73,95 @@ def int_cells(rng, tier):
     return cells
 
 
+CONTEXTS = ["decl", "decl", "decl", "assign", "arg_scalar", "arg_array", "arg_struct", "array_decl", "struct_decl", "ret"]
+
+
 def int_program(rng, cells):
-    lines = ["fn main() -> i32", "{"]
+    """One literal per cell, each in one of several syntactic contexts (declaration, assignment, scalar argument, element of an
+    array literal or member of a structure literal passed directly as an argument, element/member of a declared aggregate,
+    return value); `line` is the line the literal stands on."""
+    helpers = []
+    have = set()
+
+    def need(kind, t):
+        if (kind, t) in have:
+            return
+        have.add((kind, t))
+        if kind == "id":
+            helpers.append("fn id_%s(x: %s) -> %s\n{\n\treturn: x\n}\n" % (t, t, t))
+        elif kind == "first":
+            helpers.append("fn first_%s(x: []%s) -> %s\n{\n\treturn: x[0]\n}\n" % (t, t, t))
+        elif kind == "box":
+            helpers.append("struct Box_%s\n{\n\tv: %s,\n\tpad: u8,\n}\n" % (t, t))
+        elif kind == "unbox":
+            need("box", t)
+            helpers.append("fn unbox_%s(b: Box_%s) -> %s\n{\n\treturn: b.v\n}\n" % (t, t, t))
+    body = []
     meta = []
+    rets = []
     for i, (t, v, form, mode, neg) in enumerate(cells):
         lit = spell(rng, v, form)
         if mode in ("suffix", "both"):
             lit += t
         if neg:
             lit = "-" + lit
-        decl = "\tvar v%d%s = %s;" % (i, (": " + t) if mode in ("decl", "both") else "", lit)
-        lines.append(decl)
-        meta.append({"line": len(lines), "type": t, "value": -v if neg else v, "literal": lit, "var": "v%d" % i,
-                     "form": form, "mode": mode})
+        ctx = rng.choice(CONTEXTS)
+        ann = (": " + t) if mode in ("decl", "both") else ""
+        var = "v%d" % i
+        at = 0      # index (in body) of the line holding the literal
+        if ctx == "decl":
+            stmts = ["\tvar %s%s = %s;" % (var, ann, lit)]
+        elif ctx == "assign":
+            stmts = ["\tvar %s: %s = 0;" % (var, t), "\t%s = %s;" % (var, lit)]
+            at = 1
+        elif ctx == "arg_scalar":
+            need("id", t)
+            stmts = ["\tvar %s%s = id_%s(%s);" % (var, ann, t, lit)]
+        elif ctx == "arg_array":
+            need("first", t)
+            stmts = ["\tvar %s%s = first_%s([%s, 0]);" % (var, ann, t, lit)]
+        elif ctx == "arg_struct":
+            need("unbox", t)
+            stmts = ["\tvar %s%s = unbox_%s(Box_%s { v: %s, pad: 0 });" % (var, ann, t, t, lit)]
+        elif ctx == "array_decl":
+            stmts = ["\tvar a%d: [2]%s = [0, %s];" % (i, t, lit), "\tvar %s%s = a%d[1];" % (var, ann, i)]
+        elif ctx == "struct_decl":
+            need("box", t)
+            stmts = ["\tvar b%d = Box_%s { v: %s, pad: 0 };" % (i, t, lit), "\tvar %s%s = b%d.v;" % (var, ann, i)]
+        else:
+            rets.append((i, t, lit))
+            stmts = ["\tvar %s%s = ret_%d();" % (var, ann if ann else ": " + t, i)]
+            at = None
+        meta.append({"type": t, "value": -v if neg else v, "literal": lit, "var": var, "form": form, "mode": mode, "context": ctx,
+                     "_at": (len(body) + at) if at is not None else None})
+        body += stmts
+    head = []
+    for i, t, lit in rets:
+        head.append("fn ret_%d() -> %s\n{\n\treturn: %s\n}\n" % (i, t, lit))
+    prelude = "\n".join(helpers + head)
+    pre_lines = prelude.count("\n") + (1 if prelude else 0)
+    lines = ([prelude] if prelude else []) + ["fn main() -> i32", "{"] + body
+    first_body_line = pre_lines + 3
+    ret_line = {}
+    n = 0
+    for chunk in helpers:
+        n += chunk.count("\n") + 1
+    for i, t, lit in rets:
+        ret_line[i] = n + 3
+        n += 5
+    for i, m in enumerate(meta):
+        at = m.pop("_at")
+        m["line"] = first_body_line + at if at is not None else ret_line[i]
     for m in meta:
         lines.append("\tprint!(%s, \"\\n\");" % m["var"])
     lines += ["\treturn: 0", "}"]
-    return "\n".join(lines) + "\n", meta
+    src = "\n".join(lines) + "\n"
+    # self-check of the line bookkeeping: the literal text must stand on the line recorded for it
+    src_lines = src.split("\n")
+    for m in meta:
+        if m["literal"] not in src_lines[m["line"] - 1]:
+            raise common.HarnessError("line bookkeeping of the literal program is off for %r" % (m,))
+    return src, meta
 
 
 def compile_src(src):
@@ -132,7 +204,7 @@ def check_int_program(src, meta):
                 if -m["value"] == hi + 1 and not linted:
                     in_range = True     # |min|: either reading is defensible; the value must then be right
         got = outs[i] if i < len(outs) else None
-        cell = "%s|%s|%s|%s" % (m["type"], m["form"], m["mode"], "neg" if m["value"] < 0 else "pos")
+        cell = "%s|%s|%s|%s|%s" % (m["type"], m["form"], m["mode"], "neg" if m["value"] < 0 else "pos", m.get("context", "decl"))
         rp = {"source": src, "literal": m, "observed": got, "L1142": linted}
         if in_range:
             if got != str(m["value"]):
@@ -163,7 +235,9 @@ def class_of(m):
     v = m["value"]
     lo, hi = int_range(m["type"])
     where = "min" if v == lo else "max" if v == hi else "below min" if v < lo else "above max" if v > hi else "inside"
-    return "%s %s %s %s" % (m["type"], m["form"].rstrip("_0").lower(), "negated" if v < 0 else "plain", where)
+    ctx = m.get("context", "decl")
+    return "%s %s %s %s%s" % (m["type"], m["form"].rstrip("_0").lower(), "negated" if v < 0 else "plain", where,
+                              "" if ctx in ("decl",) else " in " + ctx)
 
 
 # ---- characters and strings
